@@ -7,8 +7,10 @@ import (
 	"sort"
 	"time"
 
+	corev1 "k8s.io/api/core/v1"
 	metav1 "k8s.io/apimachinery/pkg/apis/meta/v1"
 	k8sfake "k8s.io/client-go/kubernetes/fake"
+	corev1client "k8s.io/client-go/kubernetes/typed/core/v1"
 
 	"helm.sh/helm/v4/pkg/kube"
 	release "helm.sh/helm/v4/pkg/release/v1"
@@ -199,6 +201,28 @@ type Backend struct {
 	cs     *k8sfake.Clientset
 }
 
+// A real API server lists objects in key order, i.e. by name: "...v10" before "...v2". The fake clientset lists in map
+// order; these wrappers restore the order the drivers meet in production.
+type sortedSecrets struct{ corev1client.SecretInterface }
+
+func (s sortedSecrets) List(ctx context.Context, o metav1.ListOptions) (*corev1.SecretList, error) {
+	l, err := s.SecretInterface.List(ctx, o)
+	if l != nil {
+		sort.Slice(l.Items, func(i, j int) bool { return l.Items[i].Name < l.Items[j].Name })
+	}
+	return l, err
+}
+
+type sortedConfigMaps struct{ corev1client.ConfigMapInterface }
+
+func (s sortedConfigMaps) List(ctx context.Context, o metav1.ListOptions) (*corev1.ConfigMapList, error) {
+	l, err := s.ConfigMapInterface.List(ctx, o)
+	if l != nil {
+		sort.Slice(l.Items, func(i, j int) bool { return l.Items[i].Name < l.Items[j].Name })
+	}
+	return l, err
+}
+
 // NewBackend creates an empty backend.
 func NewBackend(kind string) *Backend {
 	b := &Backend{Kind: kind}
@@ -207,10 +231,10 @@ func NewBackend(kind string) *Backend {
 		b.Driver = driver.NewMemory()
 	case "secret":
 		b.cs = k8sfake.NewSimpleClientset()
-		b.Driver = driver.NewSecrets(b.cs.CoreV1().Secrets("default"))
+		b.Driver = driver.NewSecrets(sortedSecrets{b.cs.CoreV1().Secrets("default")})
 	case "configmap":
 		b.cs = k8sfake.NewSimpleClientset()
-		b.Driver = driver.NewConfigMaps(b.cs.CoreV1().ConfigMaps("default"))
+		b.Driver = driver.NewConfigMaps(sortedConfigMaps{b.cs.CoreV1().ConfigMaps("default")})
 	default:
 		panic("unknown backend " + kind)
 	}
